@@ -130,6 +130,18 @@ m("C17-d", "C17", "libwallet/src/api_impl/owner.rs", "\tif slate.ttl_cutoff_heig
 m("C04-e", "C04", "libwallet/src/internal/updater.rs", "\t\t\tif reverted_kernels.contains(&tx.id) && tx.parent_key_id == *parent_key_id {", "\t\t\tif reverted_kernels.contains(&tx.id) {", "C04.R1")
 m("C09-e", "C09", "libwallet/src/slatepack/types.rs", "\t\t\t.filter(|s| *s <= decrypted.len())\n", "\t\t\t.filter(|s| *s <= decrypted.len() + 4)\n", "C09.R1")
 
+# ---- C16
+SCAN = "libwallet/src/internal/scan.rs"
+m("C16-a", "C16", SCAN, "\t\t\tlast_retrieved_return_index = last_retrieved_index;\n\t\t\tbreak;\n\t\t}\n\t\tstart_index = last_retrieved_index + 1;", "\t\t\tlast_retrieved_return_index = last_retrieved_index;\n\t\t\tbreak;\n\t\t}\n\t\tstart_index = last_retrieved_index;", "C16.R2")
+m("C16-b", "C16", SCAN, "\t\tif highest_index <= last_retrieved_index {\n\t\t\tlast_retrieved_return_index", "\t\tif highest_index <= last_retrieved_index + 1 {\n\t\t\tlast_retrieved_return_index", "C16.R2")
+m("C16-c", "C16", SCAN, "\t\theight: output.height,\n\t\tlock_height: output.lock_height,", "\t\theight: output.lock_height,\n\t\tlock_height: output.lock_height,", "C16.R1")
+m("C16-d", "C16", SCAN, "\t\tlet lock_height = if *is_coinbase {\n\t\t\t*height + global::coinbase_maturity()\n\t\t} else {\n\t\t\t*height\n\t\t};\n\n\t\tlet msg = format!(", "\t\tlet lock_height = if !*is_coinbase {\n\t\t\t*height + global::coinbase_maturity()\n\t\t} else {\n\t\t\t*height\n\t\t};\n\n\t\tlet msg = format!(", "C16.R1")
+m("C16-e", "C16", SCAN, "\t\t\t\tif s.output.status == OutputStatus::Spent {", "\t\t\t\tif s.output.status == OutputStatus::Unconfirmed {", "C16.R3")
+m("C16-f", "C16", SCAN, "updater::retrieve_outputs(&mut **w, keychain_mask, true, None, None)?", "updater::retrieve_outputs(&mut **w, keychain_mask, false, None, None)?", "C16.R4")
+m("C16-g", "C16", SCAN, "\tif delete_unconfirmed {\n\t\t// Unlock locked outputs", "\tif delete_unconfirmed || start_height == 0 {\n\t\t// Unlock locked outputs", "C16.R3")
+m("C16-h", "C16", SCAN, "\t\tstatus: OutputStatus::Unspent,\n\t\theight: output.height,", "\t\tstatus: OutputStatus::Unconfirmed,\n\t\theight: output.height,", "C16.R1")
+m("C16-i", "C16", SCAN, "\t\tresult_vec.append(&mut identify_utxo_outputs(\n\t\t\tkeychain,\n\t\t\toutputs.clone(),\n\t\t\tstatus_send_channel,\n\t\t\tperc_complete as u8,\n\t\t)?);\n\n\t\tif highest_index <= last_retrieved_index {", "\t\tif highest_index <= last_retrieved_index {\n\t\t\tlast_retrieved_return_index = last_retrieved_index;\n\t\t\tbreak;\n\t\t}\n\t\tresult_vec.append(&mut identify_utxo_outputs(\n\t\t\tkeychain,\n\t\t\toutputs.clone(),\n\t\t\tstatus_send_channel,\n\t\t\tperc_complete as u8,\n\t\t)?);\n\n\t\tif highest_index <= last_retrieved_index {", "C16.R2")
+
 
 def for_property(prop):
     return [x for x in M if x["property"] == prop]
